@@ -8,6 +8,7 @@ nonblocking http client
 import json
 import copy
 import random
+import ssl
 
 from collections import deque, namedtuple
 from urllib.parse import urlsplit, quote, quote_plus, unquote, unquote_plus
@@ -1096,7 +1097,10 @@ class Client():
         """
         Service Rx on connection and parse
         """
-        self.connector.serviceReceives()
+        try:
+            self.connector.serviceReceives()
+        except ssl.SSLError as ex:  # far side sent bytes that are not tls
+            self.connector.cutoff = True  # unusable so same as closed by far side
         if self.waited:
             try:
                 self.respondent.parse()
@@ -1199,7 +1203,12 @@ class Client():
                     self.connector.tymer.restart(duration=duration)
 
         if not self.connector.connected:
-            self.connector.serviceConnect()
+            try:
+                self.connector.serviceConnect()
+            except ssl.SSLCertVerificationError:
+                raise  # far side not trusted is for the application to know
+            except ssl.SSLError as ex:  # far side did not answer with tls
+                self.connector.cutoff = True  # attempt was closed so same as gone away
             if self.connector.connected:
                 if self.respondent:
                     if self.respondent.evented and self.respondent.leid is not None:  # update Last-Event-ID header
